@@ -15,10 +15,10 @@ const tlbPath = modPath + "/tlb"
 
 type layoutCtx struct {
 	noExpand bool // audit aid: print @Name for named struct types instead of expanding them
-	c       *Ctx
-	stack   map[string]bool
-	problem []string // hygiene problems found while deriving (E3a)
-	custom  map[string]bool
+	c        *Ctx
+	stack    map[string]bool
+	problem  []string // hygiene problems found while deriving (E3a)
+	custom   map[string]bool
 }
 
 func (c *Ctx) newLayout() *layoutCtx {
